@@ -658,10 +658,38 @@ def to_int(e):
         r = to_int(a[0]) % z3.IntVal(a[1].a[0] + 1)
     elif op == '&' and a[0].op == 'c' and a[0].a[0] >= 0 and (a[0].a[0] & (a[0].a[0] + 1)) == 0:
         r = to_int(a[1]) % z3.IntVal(a[0].a[0] + 1)
+    elif op in ('|', '^') and _disjoint_bits(a[0], a[1]):
+        # no common set bit possible (intervals): or/xor is addition
+        r = to_int(a[0]) + to_int(a[1])
     else:
         raise IntModeUnsupported('operator %r is not encoded in int mode' % op)
     z['int'] = r
     return r
+
+
+def _disjoint_bits(x, y):
+    """True when the interval/shape of x and y shows they cannot share a set bit"""
+    for p, q in ((x, y), (y, x)):
+        if q.lo < 0 or p.lo < 0:
+            return False
+        tz = _trailing_zero_bits(p)
+        if tz is not None and q.hi < (1 << tz):
+            return True
+    return False
+
+
+def _trailing_zero_bits(n):
+    if n.op == 'c':
+        v = n.a[0]
+        return None if v <= 0 else (v & -v).bit_length() - 1
+    if n.op == '<<':
+        return n.a[1]
+    if n.op in ('|', '^', '+') and len(n.a) == 2:
+        x, y = _trailing_zero_bits(n.a[0]), _trailing_zero_bits(n.a[1])
+        return None if x is None or y is None else min(x, y)
+    if n.op == 'cat':
+        return _trailing_zero_bits(n.a[1]) if type(n.a[1]) is N else None
+    return None
 
 
 def full(e):
